@@ -223,7 +223,7 @@ func (s *sctx) macroItem() Item {
 	fd := genMacro(s.r, name, o)
 	it := Item{Kind: "macro", Name: name, Feat: feat, Forms: []string{fd.Src}}
 	for _, p := range fd.Probes {
-		it.Probes = append(it.Probes, fmt.Sprintf("(%s %s)", name, p), fmt.Sprintf("(macroexpand-1 '(%s %s))", name, p))
+		it.Probes = append(it.Probes, fmt.Sprintf("(%s %s)", name, p))
 	}
 	return it
 }
